@@ -81,84 +81,402 @@ TECHNIQUE = ("Coq proof: generic first-representative clustering theory + refine
              "clustering loops to it + isomorphism-is-an-equivalence via the verified enumerator; per-run correspondence over call histories "
              "by vm_compute; independent brute-force oracle")
 
+
 ATTR_KEY = "att"
+ATTR_KEY2 = "att2"
+DEF_CFG = {"names": ["element", "charge"], "defaults": ["*", 0], "edge": "order"}
+EXTRA_OPS = ("iso", "batch_dicts")            # stateless trailing calls (model: extra values after the history)
+CONTRACT_OPS = ("ctor", "backends")           # constructor / environment contract (oracle only)
+
+
+def _nbase(case):
+    return case.get("twin") or len(case["items"])
+
+
+def _group(case, idx):
+    b = idx % _nbase(case)
+    obj = case.get("obj")
+    return obj[b] if obj else b
+
+
+def _eff(case):
+    """Configuration the matchers really use: explicit matchers > constructor options > defaults."""
+    return case.get("match") or case.get("cfg") or DEF_CFG
+
+
+def _flags(op):
+    return op[-1] if isinstance(op[-1], dict) else {}
+
+
+def _op_idxs(op):
+    k = op[0]
+    if k in ("gc_iter", "gc_fit", "cluster", "fit", "batch_dicts"):
+        return list(op[1])
+    if k == "lib_check":
+        return [op[1]]
+    if k == "templates":
+        return [i for i, _ in op[1]]
+    if k == "iso":
+        return [op[1], op[2]]
+    return []
 
 
 # ------------------------------------------------------------------ implementation adapter
 
-def _entry(case, idx, graphs):
-    d = {"g": graphs[idx], "uid": idx}
-    if case["attr_mode"] != "none":
-        a = case["items"][idx]["attr"]
-        d[ATTR_KEY] = list(a) if isinstance(a, list) else a
-    return d
+def _upd(d, a):
+    for k in list(d):
+        if k not in a:
+            del d[k]
+    for k, v in a.items():
+        d[k] = list(v) if isinstance(v, list) else v
 
 
-def _akey(case):
-    return None if case["attr_mode"] == "none" else ATTR_KEY
+def _morph(O, tgt):
+    """Edit the nx.Graph O IN PLACE until it equals the JSON graph tgt (same Python object, same attribute dict objects
+    for the nodes / edges that stay)."""
+    tn = {n for n, _ in tgt["nodes"]}
+    for n in list(O.nodes):
+        if n not in tn:
+            O.remove_node(n)
+    for n, a in tgt["nodes"]:
+        if n in O.nodes:
+            _upd(O.nodes[n], a)
+        else:
+            O.add_node(n, **{k: (list(v) if isinstance(v, list) else v) for k, v in a.items()})
+    te = {frozenset((u, v)) for u, v, _ in tgt["edges"]}
+    for u, v in list(O.edges):
+        if frozenset((u, v)) not in te:
+            O.remove_edge(u, v)
+    for u, v, a in tgt["edges"]:
+        if O.has_edge(u, v):
+            _upd(O.edges[u, v], a)
+        else:
+            O.add_edge(u, v, **{k: (list(x) if isinstance(x, list) else x) for k, x in a.items()})
 
 
-def _tobs(templates):
-    return [] if templates is None else [[t["uid"], t["class"]] for t in templates]
+def _same_default(a, b):
+    return a is b or (isinstance(a, (bool, str)) and type(a) is type(b) and a == b)
+
+
+class _World:
+    """The caller's side of one history: the graph objects, the entry dicts, the clusterer objects and the template list."""
+
+    def __init__(self, case):
+        self.case = case
+        self.n = _nbase(case)
+        self.twin = bool(case.get("twin"))
+        self.shared = bool(case.get("shared"))
+        self.rk = case.get("rule_key", "g")
+        self.call = case.get("call", "short")
+        self.mode = case["attr_mode"]
+        self.objs = {}        # group -> nx.Graph
+        self.state = {}       # group -> base index of the version the object currently is
+        self.by_obj = {}      # id(nx.Graph) -> group
+        self.entries = {}     # group -> entry dict (shared mode)
+        self.lists = {}       # tuple(idxs) -> data list object (shared mode)
+        self.templates = None
+        self.tside = 0
+        self._gc = self._bc = self._m = None
+        self.last_gc = None
+        self._decoy = None
+
+    # ---- objects under test
+    def _mk(self, cls):
+        cfg = self.case.get("cfg")
+        if cfg is None:
+            return cls()
+        vals = [list(cfg["names"]), list(cfg["defaults"]), cfg["edge"], "nx"]
+        return self._call(cls, ["node_label_names", "node_label_default", "edge_attribute", "backend"], vals, {"backend": "nx"})
+
+    def gc(self):
+        from synkit.Graph.Matcher.graph_cluster import GraphCluster
+        if not self.shared:
+            return self._mk(GraphCluster)
+        if self._gc is None:
+            self._gc = self._mk(GraphCluster)
+        return self._gc
+
+    def bc(self):
+        from synkit.Graph.Matcher.batch_cluster import BatchCluster
+        if not self.shared:
+            return self._mk(BatchCluster)
+        if self._bc is None:
+            self._bc = self._mk(BatchCluster)
+        return self._bc
+
+    def _call(self, f, names, vals, defaults):
+        if self.call == "kw":
+            return f(**dict(zip(names, vals)))
+        vals = list(vals)
+        if self.call != "pos":
+            while vals and names[len(vals) - 1] in defaults and _same_default(vals[-1], defaults[names[len(vals) - 1]]):
+                vals.pop()
+        return f(*vals)
+
+    def explicit_matchers(self):
+        """Matchers built by the CALLER (case["match"]), passed explicitly to lib_check / iterative_cluster."""
+        m = self.case.get("match")
+        if m is None:
+            return None
+        if self._m is None or not self.shared:
+            from operator import eq
+            from networkx.algorithms.isomorphism import generic_node_match, generic_edge_match
+            self._m = (generic_node_match(list(m["names"]), list(m["defaults"]), [eq] * len(m["names"])),
+                       generic_edge_match(m["edge"], 1, eq))
+        return self._m
+
+    # ---- the caller's data
+    def obj(self, idx):
+        g, b = _group(self.case, idx), idx % self.n
+        if g not in self.objs:
+            O = G.to_nx(self.case["items"][b]["g"])
+            self.objs[g], self.state[g] = O, b
+            self.by_obj[id(O)] = g
+        elif self.state[g] != b:
+            O = self.objs[g]
+            if self.templates and any(t.get(self.rk) is O for t in self.templates):
+                raise AssertionError("generator bug: object of item %d edited while a template holds it (needs an edit op)" % idx)
+            _morph(O, self.case["items"][b]["g"])
+            self.state[g] = b
+        return self.objs[g]
+
+    def _set_attrs(self, d, b):
+        if self.mode == "none":
+            return
+        for key, j in ((ATTR_KEY, b), (ATTR_KEY2, b + self.n)) if self.twin else ((ATTR_KEY, b),):
+            a = self.case["items"][j]["attr"]
+            d[key] = list(a) if isinstance(a, list) else a
+
+    def use(self, idx):
+        O = self.obj(idx)
+        g, b = _group(self.case, idx), idx % self.n
+        d = self.entries.setdefault(g, {}) if self.shared else {}
+        d[self.rk] = O
+        self._set_attrs(d, b)
+        if self.rk != "g":
+            # decoys under the DEFAULT key names: an implementation that ignores rule_key / attribute_key reads these
+            if self._decoy is None:
+                import networkx as nx
+                self._decoy = nx.Graph()
+                self._decoy.add_node(1, element="C", charge=0)
+            d.setdefault("gml", self._decoy)
+            d.setdefault("WLHash", "decoy%d" % (idx % 2))
+            d.setdefault("signature", "decoy%d" % (idx % 2))
+        return d
+
+    def data(self, idxs):
+        if not self.shared:
+            return [self.use(i) for i in idxs]
+        l = [self.use(i) for i in idxs]
+        k = tuple(idxs)
+        if k in self.lists and len(self.lists[k]) == len(l) and all(a is b for a, b in zip(self.lists[k], l)):
+            return self.lists[k]          # the very same list object as in the earlier call
+        self.lists[k] = l
+        return l
+
+    def side(self, idxs):
+        return 1 if (self.twin and idxs and idxs[0] >= self.n) else 0
+
+    def key(self, op):
+        if self.mode == "none" or _flags(op).get("nokey"):
+            return None
+        return ATTR_KEY2 if self.side(_op_idxs(op)) else ATTR_KEY
+
+    def tobs(self):
+        if self.templates is None:
+            return []
+        out = []
+        for t in self.templates:
+            g = self.by_obj.get(id(t.get(self.rk)))
+            out.append([-1 if g is None else self.state[g] + (self.n if self.tside else 0), t.get("class")])
+        return out
+
+    def _note_side(self, idxs):
+        if not self.templates:
+            self.tside = self.side(idxs)
+
+    # ---- one op
+    def do(self, op):
+        """-> (observable, classes written, with_templates)"""
+        import networkx as nx  # noqa: F401
+        k = op[0]
+        rk = self.rk
+        if k == "gc_iter":
+            gc = self.gc()
+            ak = self.key(op)
+            ents = [self.use(i) for i in op[1]]
+            attrs = None if ak is None else [e[ak] for e in ents]
+            if not op[2]:
+                nmf = emf = None
+            elif self.explicit_matchers() is not None:
+                nmf, emf = self.explicit_matchers()
+            else:
+                nmf, emf = gc.nodeMatch, gc.edgeMatch
+            clusters, r2c = self._call(gc.iterative_cluster, ["rules", "attributes", "nodeMatch", "edgeMatch"],
+                                       [[e[rk] for e in ents], attrs, nmf, emf],
+                                       {"attributes": None, "nodeMatch": None, "edgeMatch": None})
+            self.last_gc = (clusters, r2c)
+            o = [[S(sorted(c)) for c in clusters], S([[a, b] for a, b in r2c.items()])]
+            return o, [r2c.get(i) for i in range(len(op[1]))], True
+        if k == "gc_fit":
+            data = self.data(op[1])
+            res = self._call(self.gc().fit, ["data", "rule_key", "attribute_key", "strip"],
+                             [data, rk, self.key(op), bool(self.case.get("strip", False))], {"strip": False})
+            classes = [d.get("class") for d in data]
+            o = [classes]
+            if not (res is data):
+                o.append("result-is-not-the-input-list")
+            return o, classes, True
+        if k == "templates":
+            if op[1]:
+                self.templates = None
+                self.tside = self.side(_op_idxs(op))
+            self.templates = [dict(self.use(i), **{"class": c}) for i, c in op[1]]
+            return [[]], [], True
+        if k == "reset":
+            self.templates = None
+            return [[]], [], True
+        if k == "meta":
+            self.meta(op[1])
+            return [[]], [], True
+        if k == "lib_check":
+            d = self.use(op[1])
+            self._note_side([op[1]])
+            nmf, emf = self.explicit_matchers() or (None, None)
+            res, self.templates = self._call(self.bc().lib_check, ["data", "templates", "rule_key", "attribute_key", "nodeMatch", "edgeMatch"],
+                                             [d, self.templates, rk, self.key(op), nmf, emf], {"nodeMatch": None, "edgeMatch": None})
+            classes = [d.get("class")]
+            o = [classes]
+            if res is not d:
+                o.append("result-is-not-the-input-dict")
+            return o, classes, True
+        if k == "cluster":
+            data = self.data(op[1])
+            self._note_side(op[1])
+            t_in = self.templates if (self.templates is not None or self.shared) else []
+            res, self.templates = self._call(self.bc().cluster, ["data", "templates", "rule_key", "attribute_key"],
+                                             [data, t_in, rk, self.key(op)], {})
+            classes = [d.get("class") for d in data]
+            o = [classes]
+            if res is not data:
+                o.append("result-is-not-the-input-list")
+            return o, classes, True
+        if k == "fit":
+            data = self.data(op[1])
+            self._note_side(op[1])
+            st = _random.getstate()
+            try:
+                try:
+                    res, self.templates = self._call(self.bc().fit, ["data", "templates", "rule_key", "attribute_key", "batch_size"],
+                                                     [data, self.templates, rk, self.key(op), op[2]], {"batch_size": None})
+                except ValueError:
+                    if op[2] is not None and op[2] < 1:
+                        return ["ValueError"], [], True
+                    raise
+            finally:
+                _random.setstate(st)
+            classes = [d.get("class") for d in data]
+            o = [classes]
+            if not (len(res) == len(data) and all(a is b for a, b in zip(res, data))):
+                o.append("result-is-not-the-input-entries-in-order")
+            return o, classes, True
+        if k == "batch_dicts":
+            data = self.data(op[1])
+            pos = {id(d): i for d, i in zip(data, op[1])}
+            f = self.bc().batch_dicts if self.shared else type(self.bc()).batch_dicts
+            try:
+                res = self._call(f, ["input_list", "batch_size"], [data, op[2]], {})
+            except ValueError:
+                return "ValueError", [], False
+            return [[pos.get(id(d), -1) for d in b] for b in res], [], False
+        if k == "iso":
+            from synkit.Graph.Matcher.graph_morphism import graph_isomorphism
+            g1, g2 = self.obj(op[1]), self.obj(op[2])
+            how = op[3]
+            if how == "nm":
+                nmf, emf = self.explicit_matchers() or (self.gc().nodeMatch, self.gc().edgeMatch)
+                vals = [g1, g2, nmf, emf, False]
+            elif how == "defaults":
+                vals = [g1, g2, None, None, True]
+            else:
+                vals = [g1, g2, None, None, False]
+            r = self._call(graph_isomorphism, ["graph_1", "graph_2", "node_match", "edge_match", "use_defaults"], vals,
+                           {"node_match": None, "edge_match": None, "use_defaults": False})
+            return (r if isinstance(r, bool) else ["not-a-bool", repr(r)[:40]]), [], False
+        if k == "ctor":
+            from synkit.Graph.Matcher.graph_cluster import GraphCluster
+            from synkit.Graph.Matcher.batch_cluster import BatchCluster
+            cls = GraphCluster if op[1] == "gc" else BatchCluster
+            try:
+                x = self._call(cls, ["node_label_names", "node_label_default", "edge_attribute", "backend"],
+                               [list(op[2]), list(op[3]), op[4], op[5]], {})
+            except (ValueError, ImportError) as e:
+                return type(e).__name__, [], False
+            return ["ok", x.backend], [], False
+        if k == "backends":
+            return list((self.gc() if op[1] == "gc" else self.bc()).available_backends()), [], False
+        raise AssertionError(k)
+
+    # ---- what the CALLER does between two calls
+    def meta(self, actions):
+        for a in actions:
+            k = a[0]
+            if k == "key":                       # same library, other attribute_key from now on
+                self.tside = a[1]
+            elif k == "edit":                    # the graph object of item a[1] is edited in place into item a[2]
+                g, b = _group(self.case, a[2]), a[2] % self.n
+                O = self.objs.get(g)
+                if O is None:
+                    self.obj(a[2])
+                    continue
+                _morph(O, self.case["items"][b]["g"])
+                self.state[g] = b
+                # the caller refreshes the pre-grouping attributes of everything that holds the edited graph
+                if g in self.entries:
+                    self._set_attrs(self.entries[g], b)
+                for t in (self.templates or []):
+                    if t.get(self.rk) is O:
+                        self._set_attrs(t, b)
+            elif k == "set_class":
+                self.use(a[1])["class"] = a[2]
+            elif k == "del_class":
+                self.use(a[1]).pop("class", None)
+            elif k == "t_append":
+                if self.templates is None:
+                    self.templates = []
+                self._note_side([a[1]])
+                self.templates.append(dict(self.use(a[1]), **{"class": a[2]}))
+            elif k == "t_trunc":
+                del self.templates[a[1]:]
+            elif k == "t_class":
+                self.templates[a[1]]["class"] = a[2]
+            elif k == "t_perm":
+                self.templates[:] = [self.templates[p] for p in a[1]]
+            elif k == "t_copy":
+                self.templates = [dict(t) for t in self.templates]
+            elif k == "clusters_clear":
+                if self.last_gc is not None:
+                    for c in self.last_gc[0]:
+                        c.clear()
+                    self.last_gc[0].append({-5})
+                    self.last_gc[1].clear()
+            else:
+                raise AssertionError(k)
 
 
 def _play(case, on_op=None):
     """Run the history on the implementation; returns the list of per-op observables."""
-    from synkit.Graph.Matcher.graph_cluster import GraphCluster
-    from synkit.Graph.Matcher.batch_cluster import BatchCluster
-    graphs = [G.to_nx(it["g"]) for it in case["items"]]
-    templates = None
+    W = _World(case)
     out = []
-    ak = _akey(case)
     for op in case["ops"]:
-        k = op[0]
-        before = _tobs(templates)
-        if k == "gc_iter":
-            gc = GraphCluster()
-            attrs = None if ak is None else [_entry(case, i, graphs)[ATTR_KEY] for i in op[1]]
-            nmf, emf = (gc.nodeMatch, gc.edgeMatch) if op[2] else (None, None)
-            clusters, r2c = gc.iterative_cluster([graphs[i] for i in op[1]], attrs, nmf, emf)
-            o = [[S(sorted(c)) for c in clusters], S([[a, b] for a, b in r2c.items()])]
-            classes = [r2c.get(i) for i in range(len(op[1]))]
-        elif k == "gc_fit":
-            data = [_entry(case, i, graphs) for i in op[1]]
-            res = GraphCluster().fit(data, "g", ak)
-            classes = [d["class"] for d in res]
-            o = [classes]
-        elif k == "templates":
-            templates = [dict(_entry(case, i, graphs), **{"class": c}) for i, c in op[1]]
-            classes = []
-            o = [[]]
-        elif k == "reset":
-            templates = None
-            classes = []
-            o = [[]]
-        elif k == "lib_check":
-            d = _entry(case, op[1], graphs)
-            res, templates = BatchCluster().lib_check(d, templates, "g", ak)
-            classes = [res["class"]]
-            o = [classes]
-        elif k == "cluster":
-            data = [_entry(case, i, graphs) for i in op[1]]
-            res, templates = BatchCluster().cluster(data, templates if templates is not None else [], "g", ak)
-            classes = [d["class"] for d in res]
-            o = [classes]
-        elif k == "fit":
-            data = [_entry(case, i, graphs) for i in op[1]]
-            st = _random.getstate()
-            try:
-                res, templates = BatchCluster().fit(data, templates, "g", ak, batch_size=op[2])
-            finally:
-                _random.setstate(st)
-            classes = [d["class"] for d in res]
-            assert [d["uid"] for d in res] == list(op[1])
-            o = [classes]
-        else:
-            raise AssertionError(k)
-        o.append(_tobs(templates))
+        before = W.tobs()
+        o, classes, with_t = W.do(op)
+        after = W.tobs()
+        if with_t:
+            o.append(after)
         out.append(o)
         if on_op is not None:
-            on_op(op, classes, before, _tobs(templates))
+            on_op(op, classes, before, after, o)
     return out
 
 
@@ -183,21 +501,38 @@ def _order_units(x):
     return [G.half(x)]
 
 
+def _const_side(case, idxs):
+    """All items on the side of idxs carry the same pre-grouping attribute (so attribute_key=None is the same call)."""
+    n = _nbase(case)
+    lo = n if (case.get("twin") and idxs and idxs[0] >= n) else 0
+    vals = [case["items"][j]["attr"] for j in range(lo, lo + n)]
+    return all(v == vals[0] for v in vals)
+
+
 def _in_domain(case):
     try:
+        cfg = _eff(case)
+        if len(cfg["names"]) > 2 or len(cfg["names"]) != len(cfg["defaults"]):
+            return False
+        for d in cfg["defaults"]:
+            if isinstance(d, bool) or not isinstance(d, (int, str)):
+                return False
+        n = _nbase(case)
+        if case.get("twin") and len(case["items"]) != 2 * n:
+            return False
         for it in case["items"]:
             g = it["g"]
-            ids = [n for n, _ in g["nodes"]]
-            if len(set(ids)) != len(ids) or any(not isinstance(n, int) or isinstance(n, bool) or n < 0 for n in ids):
+            ids = [n_ for n_, _ in g["nodes"]]
+            if len(set(ids)) != len(ids) or any(not isinstance(n_, int) or isinstance(n_, bool) or n_ < 0 for n_ in ids):
                 return False
             seen = set()
             for u, v, a in g["edges"]:
                 if u == v or frozenset((u, v)) in seen:
                     return False
                 seen.add(frozenset((u, v)))
-                _order_units(a.get("order"))
+                _order_units(a.get(cfg["edge"]))
             for _, a in g["nodes"]:
-                for k in ("element", "charge"):
+                for k in cfg["names"]:
                     x = a.get(k)
                     if x is not None and (isinstance(x, bool) or not isinstance(x, (int, str))):
                         return False
@@ -206,22 +541,50 @@ def _in_domain(case):
                 return False
             if case["attr_mode"] == "list" and not (isinstance(a, list) and all(isinstance(x, int) and not isinstance(x, bool) for x in a)):
                 return False
-        for op in case["ops"]:
-            if op[0] in ("gc_iter", "gc_fit", "cluster", "fit") and not op[1]:
+        ops = case["ops"]
+        tail = False
+        for op in ops:
+            k = op[0]
+            if k in CONTRACT_OPS:
                 return False
-            if op[0] == "fit" and op[2] is not None and op[2] < 1:
+            if k in EXTRA_OPS:
+                tail = True
+            elif tail:
                 return False
+            if k in ("gc_iter", "gc_fit", "cluster", "fit") and not op[1]:
+                return False
+            if k in ("fit", "batch_dicts") and op[2] is not None and op[2] < 1:
+                return False
+            ix = _op_idxs(op)
+            if case.get("twin") and len({i >= n for i in ix}) > 1:
+                return False
+            if _flags(op).get("nokey") and case["attr_mode"] != "none" and not _const_side(case, ix):
+                return False
+            if k == "iso" and op[3] == "defaults" and _eff(case) != DEF_CFG:
+                return False
+            if case.get("cfg") is not None and k == "fit" and _norm_cfg(case["cfg"]) != _norm_cfg(DEF_CFG):
+                # BatchCluster.fit's one-shot path builds a default GraphCluster(): only the default configuration is modelled
+                return False
+            if case.get("match") is not None and k in ("cluster", "fit", "gc_fit"):
+                return False           # these entry points cannot be given matchers
     except ValueError:
         return False
     return True
 
 
+def _norm_cfg(cfg):
+    return (tuple(sorted(zip(cfg["names"], [repr(d) for d in cfg["defaults"]]))), cfg["edge"])
+
+
 def _coq_item(idx, it, case, I):
+    cfg = _eff(case)
+    names = list(cfg["names"]) + [None, None]
+
     def na(n, a):
-        return clist([copt(None if a.get(k) is None else cN(I(a[k]))) for k in ("element", "charge")])
+        return clist([copt(None if (k is None or a.get(k) is None) else cN(I(a[k]))) for k in names[:2]])
 
     def ea(u, v, a):
-        o = _order_units(a.get("order"))
+        o = _order_units(a.get(cfg["edge"]))
         return copt(None if o is None else clist([cZ(x) for x in o]))
     a = it["attr"]
     if case["attr_mode"] == "none":
@@ -242,6 +605,9 @@ def _coq_op(op):
         return "OGcFit %s" % ix(op[1])
     if k == "templates":
         return "OTemplates %s" % clist([cpair(cnat(i), cZ(c)) for i, c in op[1]])
+    if k == "meta":
+        # what the caller did to its own objects between two calls: the model is told the resulting library
+        return "OTemplates %s" % clist([cpair(cnat(i), cZ(c)) for i, c in op[2]])
     if k == "reset":
         return "OReset"
     if k == "lib_check":
@@ -256,44 +622,78 @@ def _coq_op(op):
 def coq_case(case):
     if not _in_domain(case):
         return None
-    vals = list(DEFAULTS.values())
+    cfg = _eff(case)
+    d0 = cfg["defaults"][0] if len(cfg["defaults"]) >= 1 else "*"
+    d1 = cfg["defaults"][1] if len(cfg["defaults"]) >= 2 else 0
+    vals = [d0, d1]
     for it in case["items"]:
         for _, a in it["g"]["nodes"]:
-            for k in ("element", "charge"):
+            for k in cfg["names"]:
                 if a.get(k) is not None:
                     vals.append(a[k])
     I = G.Intern(vals)
     mode = {"none": "ANone", "str": "AStr", "list": "AList"}[case["attr_mode"]]
-    return "run %s %s %s %s %s" % (cN(I("*")), cN(I(0)), mode,
-                                   clist([_coq_item(i, it, case, I) for i, it in enumerate(case["items"])]),
-                                   clist([_coq_op(o) for o in case["ops"]]))
+    pool = clist([_coq_item(i, it, case, I) for i, it in enumerate(case["items"])])
+    main = [o for o in case["ops"] if o[0] not in EXTRA_OPS]
+    extra = [o for o in case["ops"] if o[0] in EXTRA_OPS]
+    if not extra:
+        return "run %s %s %s %s %s" % (cN(I(d0)), cN(I(d1)), mode, pool, clist([_coq_op(o) for o in main]))
+    xs = []
+    for o in extra:
+        if o[0] == "iso":
+            xs.append("tbool (item_iso %s [%s; %s] (pick pool %s) (pick pool %s))"
+                      % (cbool(o[3] != "none"), cN(I(d0)), cN(I(d1)), cnat(o[1]), cnat(o[2])))
+        else:
+            xs.append("tlist (tlist tnat) (chunks %s %s)" % (cnat(o[2]), clist([cnat(i) for i in o[1]])))
+    return "(let pool := %s in L (play %s %s %s pool [] %s ++ %s))" % (
+        pool, cN(I(d0)), cN(I(d1)), mode, clist([_coq_op(o) for o in main]), clist(xs))
 
 
 # ------------------------------------------------------------------ reference isomorphism (independent, brute force)
 
-def _tab(g):
-    lab = {n: (a.get("element", "*"), a.get("charge", 0)) for n, a in g["nodes"]}
+def _tab(g, cfg=DEF_CFG):
+    lab = {n: tuple(a.get(k, d) for k, d in zip(cfg["names"], cfg["defaults"])) for n, a in g["nodes"]}
     adj = {}
     for u, v, a in g["edges"]:
-        o = a.get("order", 1)
+        o = a.get(cfg["edge"], 1)
         o = tuple(float(x) for x in o) if isinstance(o, (list, tuple)) else float(o)
         adj[(u, v)] = adj[(v, u)] = o
     return lab, adj
 
 
-def ref_iso(g1, g2, labelled=True):
-    """Isomorphism on element, charge and bond order by back-tracking over bijections (no networkx)."""
-    (l1, a1), (l2, a2) = _tab(g1), _tab(g2)
+def ref_iso(g1, g2, labelled=True, cfg=DEF_CFG):
+    """Isomorphism on the configured node labels (element, charge) and bond order by back-tracking over bijections (no networkx)."""
+    (l1, a1), (l2, a2) = _tab(g1, cfg), _tab(g2, cfg)
     if len(l1) != len(l2) or len(a1) != len(a2):
         return False
-    n1 = list(l1)
+    if labelled and (sorted(map(repr, l1.values())) != sorted(map(repr, l2.values()))
+                     or sorted(map(repr, a1.values())) != sorted(map(repr, a2.values()))):
+        return False
+    d1, d2 = {}, {}
+    for (u, _v) in a1:
+        d1[u] = d1.get(u, 0) + 1
+    for (u, _v) in a2:
+        d2[u] = d2.get(u, 0) + 1
+    # most constrained first: nodes in order of a BFS-like expansion (neighbours of placed nodes first)
+    n1 = sorted(l1, key=lambda x: -d1.get(x, 0))
+    order, placed = [], set()
+    while len(order) < len(n1):
+        nxt = None
+        for u in n1:
+            if u not in placed and any((u, x) in a1 for x in placed):
+                nxt = u
+                break
+        if nxt is None:
+            nxt = next(u for u in n1 if u not in placed)
+        order.append(nxt)
+        placed.add(nxt)
 
     def rec(i, m, used):
-        if i == len(n1):
+        if i == len(order):
             return True
-        u = n1[i]
+        u = order[i]
         for v in l2:
-            if v in used or (labelled and l1[u] != l2[v]):
+            if v in used or d1.get(u, 0) != d2.get(v, 0) or (labelled and l1[u] != l2[v]):
                 continue
             ok = True
             for x, y in m.items():
@@ -314,10 +714,11 @@ def ref_iso(g1, g2, labelled=True):
 
 def ref_partition(case, idxs, labelled=True):
     """Isomorphism classes of the listed pool items as a set of frozensets of POSITIONS."""
+    cfg = _eff(case)
     reps, cls = [], []
     for p, i in enumerate(idxs):
         for c, r in enumerate(reps):
-            if ref_iso(case["items"][r]["g"], case["items"][i]["g"], labelled):
+            if ref_iso(case["items"][r]["g"], case["items"][i]["g"], labelled, cfg):
                 cls[c].append(p)
                 break
         else:
@@ -333,15 +734,18 @@ def _partition(classes):
     return {frozenset(v) for v in d.values()}
 
 
-def ref_first_rep_classes(case, idxs):
+def _ref_key(case, i, nokey=False):
+    a = case["items"][i]["attr"]
+    return None if (case["attr_mode"] == "none" or nokey) else (a if isinstance(a, str) else tuple(sorted(a)))
+
+
+def ref_first_rep_classes(case, idxs, nokey=False):
     """Reference first-representative clustering with the attribute pre-filter (used only to pre-compute the sampler picks)."""
-    def key(i):
-        a = case["items"][i]["attr"]
-        return None if case["attr_mode"] == "none" else (a if isinstance(a, str) else tuple(sorted(a)))
+    cfg = _eff(case)
     reps, out = [], []
     for i in idxs:
         for c, r in enumerate(reps):
-            if key(r) == key(i) and ref_iso(case["items"][r]["g"], case["items"][i]["g"]):
+            if _ref_key(case, r, nokey) == _ref_key(case, i, nokey) and ref_iso(case["items"][r]["g"], case["items"][i]["g"], True, cfg):
                 out.append(c)
                 break
         else:
@@ -359,31 +763,273 @@ def sampler_picks(classes):
     return [r.sample(list(range(n)), 1)[0] for n in sizes.values()]
 
 
+# ------------------------------------------------------------------ the caller's view of a history (generator side)
+
+class _Sim:
+    """Reference bookkeeping used by the GENERATORS only: follows a raw history, fills in what the model must be told
+    (sampler picks; the template list after something the caller did to its own objects) and inserts the caller actions that
+    keep a history expressible (an `edit` when a graph object held by a template changes, a `key` switch when the library is
+    used with the other attribute key, a `t_copy` before GraphCluster.fit rewrites entry dicts that ARE the templates: the
+    one-batch path of BatchCluster.fit returns the data dicts themselves as templates)."""
+
+    def __init__(self, case):
+        self.case = case
+        self.n = _nbase(case)
+        self.shared = bool(case.get("shared"))
+        self.twin = bool(case.get("twin"))
+        self.T = []            # [idx, class, alias group or None]
+        self.tside = 0
+        self.state = {}
+        self.out = []
+        self.clobber = False
+        self.cfg = _eff(case)
+
+    def side(self, idxs):
+        return 1 if (self.twin and idxs and idxs[0] >= self.n) else 0
+
+    def expected(self):
+        return [[t[0], t[1]] for t in self.T]
+
+    def _emit_meta(self, actions):
+        self.out.append(["meta", actions, self.expected()])
+
+    def ensure_state(self, idxs):
+        seen = {}
+        for i in idxs:
+            g, b = _group(self.case, i), i % self.n
+            if seen.setdefault(g, b) != b:
+                raise ValueError("two versions of one object in one call")
+        for i in idxs:
+            g, b = _group(self.case, i), i % self.n
+            old = self.state.get(g, b)
+            self.state[g] = b
+            if old != b and any(_group(self.case, t[0]) == g for t in self.T):
+                for t in self.T:
+                    if _group(self.case, t[0]) == g:
+                        t[0] = b + (self.n if self.tside else 0)
+                self._emit_meta([["edit", old, b]])
+
+    def ensure_side(self, idxs):
+        s = self.side(idxs)
+        if self.T and s != self.tside:
+            self.tside = s
+            for t in self.T:
+                t[0] = t[0] % self.n + (self.n if s else 0)
+            self._emit_meta([["key", s]])
+        elif not self.T:
+            self.tside = s
+
+    def write(self, idx, c):
+        if self.shared:
+            g = _group(self.case, idx)
+            for t in self.T:
+                if t[2] == g:
+                    if t[1] != c:
+                        self.clobber = True
+                    t[1] = c
+
+    def _incremental(self, idxs, nokey):
+        """lib_check over idxs; when that would rewrite the class of a template that IS one of the entry dicts (only possible after the
+        caller made the library incoherent) the caller first replaces the library by copies (t_copy), so the history stays expressible."""
+        import copy
+        saved = copy.deepcopy(self.T)
+        self.clobber = False
+        for i in idxs:
+            self._lib_check(i, nokey)
+        if self.clobber:
+            self.T = saved
+            for t in self.T:
+                t[2] = None
+            self._emit_meta([["t_copy"]])
+            for i in idxs:
+                self._lib_check(i, nokey)
+
+    def _lib_check(self, i, nokey):
+        items = self.case["items"]
+        for t in self.T:
+            if _ref_key(self.case, t[0], nokey) == _ref_key(self.case, i, nokey) and ref_iso(items[t[0]]["g"], items[i]["g"], True, self.cfg):
+                c = t[1]
+                break
+        else:
+            c = max([t[1] for t in self.T], default=-1) + 1
+            self.T.append([i, c, None])
+        self.write(i, c)
+        return c
+
+    def step(self, op):
+        op = list(op)
+        k = op[0]
+        nokey = bool(_flags(op).get("nokey"))
+        ix = _op_idxs(op)
+        if k in ("gc_iter", "gc_fit", "iso", "batch_dicts"):
+            self.ensure_state(ix)
+            if k == "gc_fit" and self.shared:
+                gs = {_group(self.case, i) for i in ix}
+                if any(t[2] in gs for t in self.T):
+                    for t in self.T:
+                        t[2] = None
+                    self._emit_meta([["t_copy"]])
+            self.out.append(op)
+        elif k == "templates":
+            self.T = []
+            self.ensure_state(ix)
+            self.T = [[i, c, None] for i, c in op[1]]
+            if op[1]:
+                self.tside = self.side(ix)
+            self.out.append(op)
+        elif k == "reset":
+            self.T = []
+            self.out.append(op)
+        elif k in ("lib_check", "cluster"):
+            self.ensure_state(ix)
+            self.ensure_side(ix)
+            self._incremental(ix, nokey)
+            self.out.append(op)
+        elif k == "fit":
+            idxs, bs = op[1], op[2]
+            fl = _flags(op)
+            self.ensure_state(ix)
+            self.ensure_side(ix)
+            picks = []
+            if bs is not None and bs < 1:
+                pass
+            else:
+                nb = 1 if bs is None else (len(idxs) + bs - 1) // bs
+                if nb == 1 and not self.T:
+                    cl = ref_first_rep_classes(self.case, idxs, nokey)
+                    picks = sampler_picks(cl)
+                    members = {}
+                    for p, c in enumerate(cl):
+                        members.setdefault(c, []).append(p)
+                    self.T = [[idxs[m[pk]], c, (_group(self.case, idxs[m[pk]]) if self.shared else None)]
+                              for (c, m), pk in zip(members.items(), picks)]
+                    self.tside = self.side(ix)
+                else:
+                    self._incremental(idxs, nokey)
+            self.out.append(["fit", list(idxs), bs, picks] + ([fl] if fl else []))
+        elif k == "meta":
+            acts = []
+            for a in op[1]:
+                a = list(a)
+                kk = a[0]
+                if kk == "key":
+                    if self.T:
+                        self.tside = a[1]
+                        for t in self.T:
+                            t[0] = t[0] % self.n + (self.n if a[1] else 0)
+                    else:
+                        continue
+                elif kk == "edit":
+                    g, b = _group(self.case, a[2]), a[2] % self.n
+                    a = ["edit", self.state.get(g, b), b]
+                    self.state[g] = b
+                    for t in self.T:
+                        if _group(self.case, t[0]) == g:
+                            t[0] = b + (self.n if self.tside else 0)
+                elif kk == "set_class":
+                    self.ensure_state([a[1]])
+                    self.write(a[1], a[2])
+                elif kk == "del_class":
+                    self.ensure_state([a[1]])
+                    if self.shared and any(t[2] == _group(self.case, a[1]) for t in self.T):
+                        continue
+                elif kk == "t_append":
+                    self.ensure_state([a[1]])
+                    self.ensure_side([a[1]])
+                    self.T.append([a[1], a[2], None])
+                elif kk == "t_trunc":
+                    del self.T[a[1]:]
+                elif kk == "t_class":
+                    if a[1] >= len(self.T):
+                        continue
+                    self.T[a[1]][1] = a[2]
+                    if self.T[a[1]][2] is not None:
+                        self.write(self.T[a[1]][0], a[2])
+                elif kk == "t_perm":
+                    if a[1] == "rev":
+                        a[1] = list(reversed(range(len(self.T))))
+                    if sorted(a[1]) != list(range(len(self.T))):
+                        continue
+                    self.T = [self.T[p] for p in a[1]]
+                elif kk == "t_copy":
+                    for t in self.T:
+                        t[2] = None
+                acts.append(a)
+            self._emit_meta(acts)
+        elif k in CONTRACT_OPS:
+            self.out.append(op)
+        else:
+            raise AssertionError(k)
+
+
+def _finalize(case, raw_ops):
+    s = _Sim(case)
+    for op in raw_ops:
+        s.step(op)
+    return s.out
+
+
 # ------------------------------------------------------------------ property oracle
+
+def _contract_ctor(which, names, defaults, edge, backend):
+    b = backend.lower()
+    if b != "nx":
+        return "ImportError" if b == ("mod" if which == "gc" else "rule") else "ValueError"
+    if len(names) != len(defaults):
+        return "ValueError"
+    return ["ok", "nx"]
+
 
 def oracle(case):
     fails = []
     inv = case.get("invariant", True)
     items = case["items"]
+    cfg = _eff(case)
 
     def iso(i, j, labelled=True):
-        return ref_iso(items[i]["g"], items[j]["g"], labelled)
+        return ref_iso(items[i]["g"], items[j]["g"], labelled, cfg)
 
     state = {"assigned": []}      # (pool idx, class) of everything classified incrementally since the last template reset
 
-    def on_op(op, classes, t_before, t_after):
+    def on_op(op, classes, t_before, t_after, o):
         k = op[0]
         if k in ("gc_iter", "gc_fit"):
             labelled = op[2] if k == "gc_iter" else True
             if not labelled:
                 return        # topology-only matching is outside the property text (correspondence only)
+            if k == "gc_fit" and case.get("match") is not None:
+                return
             if None in classes:
                 fails.append(dict(clause="partition", detail="%s left an item without a class" % k))
             elif inv and _partition(classes) != ref_partition(case, op[1], labelled):
                 fails.append(dict(clause="partition", detail="%s on %r: classes %r are not the isomorphism classes" % (k, op[1], classes)))
             return
-        if k in ("templates", "reset"):
+        if k in ("templates", "reset", "meta"):
             state["assigned"] = [tuple(x) for x in t_after]
+            return
+        if k == "iso":
+            want = ref_iso(items[op[1]]["g"], items[op[2]]["g"], op[3] != "none", DEF_CFG if op[3] == "defaults" else cfg)
+            if o is not want:
+                fails.append(dict(clause="isomorphism", detail="graph_isomorphism(%d, %d, %s) = %r, reference %r" % (op[1], op[2], op[3], o, want)))
+            return
+        if k == "batch_dicts":
+            bs = op[2]
+            want = "ValueError" if bs < 1 else [list(op[1][i:i + bs]) for i in range(0, len(op[1]), bs)]
+            if o != want:
+                fails.append(dict(clause="batches", detail="batch_dicts(%r, %r) = %r" % (op[1], bs, o)))
+            return
+        if k == "ctor":
+            want = _contract_ctor(*op[1:6])
+            if o != want:
+                fails.append(dict(clause="constructor", detail="%r -> %r, contract %r" % (op, o, want)))
+            return
+        if k == "backends":
+            if o != ["nx"]:
+                fails.append(dict(clause="constructor", detail="available_backends() = %r without the mod package" % (o,)))
+            return
+        if k == "fit" and op[2] is not None and op[2] < 1:
+            if o[0] != "ValueError":
+                fails.append(dict(clause="batches", detail="fit with batch_size %r did not raise ValueError" % op[2]))
             return
         idxs = [op[1]] if k == "lib_check" else list(op[1])
         if None in classes or len(classes) != len(idxs):
@@ -391,6 +1037,8 @@ def oracle(case):
             return
         if not inv:
             return
+        if case.get("cfg") is not None and k == "fit" and _norm_cfg(case["cfg"]) != _norm_cfg(DEF_CFG):
+            return            # see notes: the one-shot path ignores the constructor options (outside the property text)
         known = list(state["assigned"]) if t_before else []
         rep_classes = {c for _, c in t_before}
         for i, c in zip(idxs, classes):
@@ -407,7 +1055,7 @@ def oracle(case):
         state["assigned"] = known
         # every class in use must be represented among the templates by an isomorphic member (state carried across batches)
         for i, c in zip(idxs, classes):
-            if not any(c2 == c and iso(j, i) for j, c2 in t_after):
+            if not any(c2 == c and j >= 0 and iso(j, i) for j, c2 in t_after):
                 fails.append(dict(clause="incremental", detail="%s: class %r of item %d has no isomorphic representative in the "
                                   "returned templates" % (k, c, i)))
                 break
@@ -415,19 +1063,21 @@ def oracle(case):
     _play(case, on_op)
     if fails:
         return fails[:3]
-    # order independence, stated directly: re-run every one-shot call on the reversed and on a rotated list
-    from synkit.Graph.Matcher.graph_cluster import GraphCluster
-    graphs = [G.to_nx(it["g"]) for it in items]
-    ak = _akey(case)
+    # order independence, stated directly: re-run every one-shot call on the reversed and on a rotated list (fresh objects)
+    if not inv or case.get("match") is not None:
+        return fails
+    done = set()
     for op in case["ops"]:
-        if op[0] != "gc_fit" or len(op[1]) < 2 or not inv:
+        if op[0] != "gc_fit" or len(op[1]) < 2 or tuple(op[1]) in done or len(done) >= 2:
             continue
+        done.add(tuple(op[1]))
         base = None
         for perm in (list(range(len(op[1]))), list(reversed(range(len(op[1])))), list(range(1, len(op[1]))) + [0]):
-            data = [_entry(case, op[1][p], graphs) for p in perm]
-            res = GraphCluster().fit(data, "g", ak)
+            W = _World(dict(case, shared=False, obj=None))
+            data = [W.use(op[1][p]) for p in perm]
+            W.gc().fit(data, W.rk, W.key(op))
             lab = [None] * len(perm)
-            for p, d in zip(perm, res):
+            for p, d in zip(perm, data):
                 lab[p] = d["class"]
             part = _partition(lab)
             if base is None:
@@ -448,25 +1098,43 @@ def nontrivial(case, obs):
 
 
 def distribution(cases, obss):
-    ops, pool, ncls, bs, src, modes = {}, {}, {}, {}, {}, {}
+    ops, pool, ncls, bs, src, modes, feats, metas = {}, {}, {}, {}, {}, {}, {}, {}
+
+    def inc(d, k):
+        d[k] = d.get(k, 0) + 1
     for c in cases:
-        modes[c["attr_mode"] + ("" if c.get("invariant", True) else "/non-invariant")] = modes.get(c["attr_mode"] + ("" if c.get("invariant", True) else "/non-invariant"), 0) + 1
+        inc(modes, c["attr_mode"] + ("" if c.get("invariant", True) else "/non-invariant"))
         b = len(c["items"])
-        kb = "<=4" if b <= 4 else "5-8" if b <= 8 else "9-14" if b <= 14 else "15+"
-        pool[kb] = pool.get(kb, 0) + 1
+        inc(pool, "<=4" if b <= 4 else "5-8" if b <= 8 else "9-14" if b <= 14 else "15-19" if b <= 19 else "20+")
         for it in c["items"]:
-            src[it.get("src", "?")] = src.get(it.get("src", "?"), 0) + 1
+            inc(src, it.get("src", "?"))
+        for f in ("shared", "twin", "obj", "cfg", "match", "strip"):
+            if c.get(f):
+                inc(feats, f)
+        inc(feats, "call=" + c.get("call", "short"))
+        inc(feats, "rule_key=" + c.get("rule_key", "g"))
+        if any(not it["g"]["nodes"] for it in c["items"]):
+            inc(feats, "has-empty-graph")
+        if any(len(it["g"]["nodes"]) >= 10 for it in c["items"]):
+            inc(feats, "has-graph>=10-nodes")
+        if any(it.get("attr") in ("", []) for it in c["items"]):
+            inc(feats, "has-falsy-attribute")
         for op in c["ops"]:
-            ops[op[0]] = ops.get(op[0], 0) + 1
+            inc(ops, op[0])
             if op[0] == "fit":
-                bs[str(op[2])] = bs.get(str(op[2]), 0) + 1
+                inc(bs, str(op[2]))
+            if op[0] == "meta":
+                for a in op[1]:
+                    inc(metas, a[0])
+            if _flags(op).get("nokey"):
+                inc(feats, "op-with-attribute_key=None")
     for c, o in zip(cases, obss):
         if isinstance(o, list) and o and o[0] != "EXC":
             for op, ob in zip(c["ops"], o):
-                if op[0] in ("gc_fit", "fit", "cluster") and ob and ob[0]:
-                    n = len(set(ob[0]))
-                    ncls[str(n)] = ncls.get(str(n), 0) + 1
+                if op[0] in ("gc_fit", "fit", "cluster") and isinstance(ob, list) and ob and isinstance(ob[0], list) and ob[0]:
+                    inc(ncls, str(len(set(map(str, ob[0])))))
     return dict(op_kinds=ops, pool_sizes=pool, item_sources=src, attr_modes=modes, fit_batch_sizes=dict(sorted(bs.items())),
+                features=dict(sorted(feats.items())), caller_actions=dict(sorted(metas.items())),
                 classes_per_call=dict(sorted(ncls.items(), key=lambda kv: int(kv[0]))))
 
 
@@ -504,6 +1172,8 @@ def _copy(g):
 def _near_miss(g, rng):
     """One bond order or one charge changed (or, rarely, one element)."""
     h = _copy(g)
+    if not h["nodes"]:
+        return {"nodes": [[rng.choice([0, 3, 11]), {"element": "C", "charge": 0}]], "edges": []}
     z = rng.random()
     if z < 0.55 and h["edges"]:
         e = rng.choice(h["edges"])
@@ -526,9 +1196,52 @@ def _near_miss(g, rng):
     return h
 
 
-def _relabelled(g, rng):
+def _near_miss_deg(g, rng):
+    """Near-misses through degenerate values: charge 0 <-> -1 / 10 / 11, order 1 <-> 0 / 0.0, a node or an edge added / removed."""
+    h = _copy(g)
+    if not h["nodes"]:
+        return _near_miss(g, rng)
+    z = rng.random()
+    if z < 0.3:
+        n = rng.choice(h["nodes"])
+        c = n[1].get("charge", 0)
+        n[1]["charge"] = rng.choice([x for x in (0, -1, 10, 11, 1) if x != c])
+    elif z < 0.55 and h["edges"]:
+        e = rng.choice(h["edges"])
+        o = e[2].get("order", 1)
+        if isinstance(o, list):
+            o = list(o)
+            p = rng.randrange(len(o))
+            o[p] = rng.choice([x for x in (0, 0.0, 1, 1.0, 2) if x != o[p]])
+            if o[0] == o[1]:
+                o[p] = 3
+            e[2]["order"] = o
+        else:
+            e[2]["order"] = rng.choice([x for x in (0, 0.0, 2, 1.5) if x != o])
+    elif z < 0.7:
+        new = max(n for n, _ in h["nodes"]) + rng.choice([1, 9, 100])
+        h["nodes"].append([new, {"element": rng.choice(["C", "H"]), "charge": 0}])          # an isolated node more
+    elif z < 0.8 and len(h["nodes"]) > 1:
+        n = rng.choice(h["nodes"])[0]
+        h["nodes"] = [x for x in h["nodes"] if x[0] != n]
+        h["edges"] = [e for e in h["edges"] if n not in (e[0], e[1])]
+    elif z < 0.9 and h["edges"]:
+        h["edges"].remove(rng.choice(h["edges"]))
+    else:
+        ids = [n for n, _ in h["nodes"]]
+        have = {frozenset((u, v)) for u, v, _ in h["edges"]}
+        free = [(u, v) for u in ids for v in ids if u < v and frozenset((u, v)) not in have]
+        if free:
+            u, v = rng.choice(free)
+            h["edges"].append([u, v, {"order": 1}])
+        else:
+            return _near_miss(g, rng)
+    return h
+
+
+def _relabelled(g, rng, hi=60):
     ids = [n for n, _ in g["nodes"]]
-    new = rng.sample(range(1, 60), len(ids))
+    new = rng.sample(range(0 if hi != 60 else 1, max(hi, len(ids) + 1)), len(ids))
     return G.shuffle_insertion(G.relabel(g, dict(zip(ids, new))), rng)
 
 
@@ -548,31 +1261,59 @@ def _respell(g, rng):
     return h
 
 
-def _signature(g):
-    """An isomorphism-invariant string (sorted element/charge multiset and sorted order multiset)."""
-    ns = sorted("%s%d" % (a.get("element", "*"), a.get("charge", 0)) for _, a in g["nodes"])
+def _signature(g, cfg=DEF_CFG):
+    """An isomorphism-invariant string (sorted node-label multiset and sorted order multiset)."""
+    ns = sorted("".join("%s" % (a.get(k, d),) for k, d in zip(cfg["names"], cfg["defaults"])) for _, a in g["nodes"])
     def num(o):
         return "(" + ",".join("%g" % x for x in o) + ")" if isinstance(o, (list, tuple)) else "%g" % o
-    es = sorted(num(a.get("order", 1)) for _, _, a in g["edges"])
-    return "".join(ns) + "|" + ",".join(es)
+    es = sorted(num(a.get(cfg["edge"], 1)) for _, _, a in g["edges"])
+    return ".".join(ns) + "|" + ",".join(es)
+
+
+def _elems_str(g, cfg=DEF_CFG):
+    """Coarser invariant string: the sorted multiset of the first node label; "" (falsy) for the empty graph."""
+    if not cfg["names"]:
+        return "n%d" % len(g["nodes"])
+    k, d = cfg["names"][0], cfg["defaults"][0]
+    return "".join(sorted("%s" % (a.get(k, d),) for _, a in g["nodes"]))
+
+
+def _sig_falsy(g, cfg=DEF_CFG):
+    """Invariant string that is "" (falsy) for every graph without edges."""
+    return "" if not g["edges"] else _signature(g, cfg)
 
 
 def _ring_attr(g):
     return sorted([len(g["nodes"]), len(g["edges"])] + [sum(1 for _, a in g["nodes"] if a.get("element") == "C")])
 
 
-def _pool(rng, base, size, p_near=0.25, p_rel=0.45):
+def _elem_list(g):
+    """Elements in NODE ORDER: isomorphism-invariant only as a multiset (GraphCluster compares sorted(value)); [] for the empty graph."""
+    return [sum(ord(c) for c in str(a.get("element", "*"))) for _, a in g["nodes"]]
+
+
+def _edge_list_attr(g):
+    """Doubled bond orders in EDGE ORDER (multiset invariant); [] (falsy) for graphs without edges."""
+    out = []
+    for _, _, a in g["edges"]:
+        o = a.get("order", 1)
+        out.append(int(2 * sum(o)) + 100 if isinstance(o, (list, tuple)) else int(2 * o))
+    return out
+
+
+def _pool(rng, base, size, p_near=0.25, p_rel=0.45, near=None, hi=60):
     """A multiset drawn from a few base graphs with duplicates, relabelled copies and near-misses, in random order."""
+    near = near or _near_miss
     items = []
     for _ in range(size):
         g = rng.choice(base)
         z = rng.random()
         if z < p_near:
-            h, src = _near_miss(g, rng), "near"
+            h, src = near(g, rng), "near"
             if rng.random() < 0.5:
-                h = _relabelled(h, rng)
+                h = _relabelled(h, rng, hi)
         elif z < p_near + p_rel:
-            h, src = _relabelled(g, rng), "relabel"
+            h, src = _relabelled(g, rng, hi), "relabel"
         else:
             h, src = _copy(g), "dup"
         items.append({"g": h, "src": src})
@@ -580,39 +1321,67 @@ def _pool(rng, base, size, p_near=0.25, p_rel=0.45):
     return items
 
 
-def _elem_list(g):
-    """Elements in NODE ORDER: isomorphism-invariant only as a multiset (GraphCluster compares sorted(value))."""
-    return [sum(ord(c) for c in a.get("element", "*")) for _, a in g["nodes"]]
-
-
-def _set_attrs(items, mode, invariant, rng):
+def _set_attrs(items, mode, invariant, rng, cfg=DEF_CFG, variant=None):
     unordered = rng.random() < 0.5
+    if variant is None:
+        variant = rng.choice(["sig", "sig", "falsy", "coarse"]) if mode == "str" else rng.choice(["elem", "ring", "edges"])
     for it in items:
         if mode == "none":
             it["attr"] = None
         elif mode == "str":
-            it["attr"] = _signature(it["g"]) if invariant else rng.choice(["a", "b", _signature(it["g"])[:3]])
+            if invariant:
+                it["attr"] = {"sig": _signature, "falsy": _sig_falsy, "coarse": _elems_str}[variant](it["g"], cfg)
+            else:
+                it["attr"] = rng.choice(["a", "b", "", _signature(it["g"])[:3]])
         else:
             if invariant:
-                it["attr"] = _elem_list(it["g"]) if unordered else _ring_attr(it["g"])
+                it["attr"] = {"elem": _elem_list, "ring": _ring_attr, "edges": _edge_list_attr}[variant](it["g"]) if (unordered or variant != "elem") else _ring_attr(it["g"])
             else:
                 it["attr"] = [rng.choice([1, 2]), rng.choice([1, 2])]
     return items
 
 
-def _fit_op(case, idxs, bs, have_templates):
-    picks = []
-    n_batches = 1 if bs is None else (len(idxs) + bs - 1) // bs
-    if n_batches == 1 and not have_templates:
-        picks = sampler_picks(ref_first_rep_classes(case, idxs))
-    return ["fit", list(idxs), bs, picks]
+def _add_twin(items, mode, rng, second, cfg=DEF_CFG):
+    """Pool of 2n items: item i+n is item i with the SECOND pre-grouping attribute (the twin trick, see the notes)."""
+    n = len(items)
+    tw = []
+    alt = mode == "list" and all(it["attr"] == _edge_list_attr(it["g"]) for it in items)
+    for it in items:
+        t = {"g": it["g"], "src": it.get("src", "?")}
+        if mode == "none":
+            t["attr"] = None
+        elif second == "const":
+            t["attr"] = "" if mode == "str" else []
+        elif mode == "str":
+            t["attr"] = _elems_str(it["g"], cfg) if it["attr"] != _elems_str(it["g"], cfg) else _signature(it["g"], cfg)
+        else:
+            t["attr"] = _ring_attr(it["g"]) if alt else _edge_list_attr(it["g"])
+        tw.append(t)
+    return items + tw, n
 
 
-def _history(rng, case, n):
-    """Random history over the pool 0..n-1."""
-    idx = list(range(n))
+def _same_attr(case, i, j):
+    return _ref_key(case, i) == _ref_key(case, j)
+
+
+def _consistent(case, chosen, nums):
+    """Class numbers for the chosen representatives such that isomorphic representatives (same attribute) share a number."""
+    cfg = _eff(case)
+    tl = []
+    for i, c in zip(chosen, nums):
+        for j, c2 in tl:
+            if ref_iso(case["items"][i]["g"], case["items"][j]["g"], True, cfg) and _same_attr(case, i, j):
+                c = c2
+                break
+        tl.append([i, c])
+    return tl
+
+
+def _history(rng, case, n, idx=None):
+    """Random history over the pool 0..n-1 (raw ops)."""
+    idx = list(range(n)) if idx is None else list(idx)
+    n = len(idx)
     ops = []
-    have = False
     z = rng.random()
     if z < 0.2:
         # one-shot only, several orders
@@ -623,17 +1392,7 @@ def _history(rng, case, n):
     if z < 0.35:
         # explicit consistent starting templates with arbitrary class numbers
         k = rng.randint(1, min(4, n))
-        chosen = rng.sample(idx, k)
-        nums = rng.sample(range(0, 12), k)
-        tl = []
-        for i, c in zip(chosen, nums):
-            for j, c2 in tl:
-                if ref_iso(case["items"][i]["g"], case["items"][j]["g"]) and _same_attr(case, i, j):
-                    c = c2
-                    break
-            tl.append([i, c])
-        ops.append(["templates", tl])
-        have = True
+        ops.append(["templates", _consistent(case, rng.sample(idx, k), rng.sample(range(0, 12), k))])
     order = idx[:]
     rng.shuffle(order)
     pos = 0
@@ -648,17 +1407,11 @@ def _history(rng, case, n):
         elif r < 0.5:
             ops.append(["cluster", chunk])
         else:
-            bs = rng.choice([None, 1, 2, 3, 5, len(chunk), len(chunk) + 1])
-            ops.append(_fit_op(case, chunk, bs, have))
-        have = True
+            ops.append(["fit", chunk, rng.choice([None, 1, 2, 3, 5, len(chunk), len(chunk) + 1])])
         pos += take
     if rng.random() < 0.5:
         ops.append(["gc_fit", order])
     return ops
-
-
-def _same_attr(case, i, j):
-    return case["items"][i]["attr"] == case["items"][j]["attr"]
 
 
 def _batch_vs_oneshot(rng, case, n):
@@ -668,7 +1421,7 @@ def _batch_vs_oneshot(rng, case, n):
     ops = [["gc_fit", order]]
     for bs in [None] + list(range(1, n + 1)):
         ops.append(["reset"])
-        ops.append(_fit_op(case, order, bs, False))
+        ops.append(["fit", order, bs])
     return ops
 
 
@@ -681,13 +1434,7 @@ def _gap_templates(rng, case, n):
     nums = sorted(rng.sample(range(0, 15), k), reverse=True)
     if k > 2 and rng.random() < 0.5:
         nums[1:] = rng.sample(nums[1:], k - 1)
-    tl = []
-    for i, c in zip(idx[:k], nums):
-        for j, c2 in tl:
-            if ref_iso(case["items"][i]["g"], case["items"][j]["g"]) and _same_attr(case, i, j):
-                c = c2
-                break
-        tl.append([i, c])
+    tl = _consistent(case, idx[:k], nums)
     rest = idx[k:] + rng.sample(idx[:k], rng.randint(0, k))
     rng.shuffle(rest)
     ops = [["templates", tl]]
@@ -695,11 +1442,11 @@ def _gap_templates(rng, case, n):
     if z < 0.35 or len(rest) < 2:
         ops.append(["cluster", rest])
     elif z < 0.7:
-        ops.append(_fit_op(case, rest, rng.choice([1, 2, 3]), True))
+        ops.append(["fit", rest, rng.choice([1, 2, 3])])
     else:
         h = rng.randint(1, len(rest) - 1)
         ops += [["lib_check", i] for i in rest[:h][:3]]
-        ops.append(_fit_op(case, rest[h:], rng.choice([None, 2]), True))
+        ops.append(["fit", rest[h:], rng.choice([None, 2])])
     ops.append(["lib_check", rng.choice(idx)])
     return ops
 
@@ -709,7 +1456,7 @@ def _empty_templates(rng, case, n):
     order = list(range(n))
     rng.shuffle(order)
     h = rng.randint(1, n)
-    ops = [["templates", []], _fit_op(case, order[:h], rng.choice([None, h, h + 2]), False)]
+    ops = [["templates", []], ["fit", order[:h], rng.choice([None, h, h + 2])]]
     ops += [["lib_check", i] for i in order[h:][:2]]
     if order[h + 2:]:
         ops.append(["cluster", order[h + 2:]])
@@ -717,17 +1464,339 @@ def _empty_templates(rng, case, n):
     return ops
 
 
+# ---- round 3: histories on shared objects
+
+def _h_libs(rng, case, n, side=0):
+    """(a) ONE BatchCluster object classified against different libraries of EQUAL size."""
+    N = _nbase(case)
+    idx = [i + side * N for i in range(n)]
+    k = rng.randint(1, min(4, n))
+    c1 = rng.sample(idx, k)
+    nums = rng.sample([0, 1, 2, 3, 5, 9, 10, 11, 100], k)
+    T1 = _consistent(case, c1, nums)
+    z = rng.random()
+    if z < 0.3:
+        perm = nums[1:] + nums[:1]
+        T2 = _consistent(case, c1, perm)                     # the same representatives, class numbers permuted
+    elif z < 0.45:
+        T2 = [T1[p] for p in rng.sample(range(k), k)]        # the same library in another order
+    else:
+        c2 = rng.sample(idx, k)
+        T2 = _consistent(case, c2, rng.sample([0, 1, 2, 3, 4, 7, 10, 12, 100], k))    # other representatives
+    xs = rng.sample(idx, min(n, rng.randint(1, 3)))
+    ops = [["templates", T1]] + [["lib_check", i] for i in xs]
+    # restore the library's size: the first library may have grown, the second one gets as many representatives
+    ops.append(["meta", [["t_trunc", k]]]) if rng.random() < 0.5 else None
+    ops.append(["templates", T2])
+    ys = rng.sample(idx, min(n, rng.randint(1, 3)))
+    z = rng.random()
+    if z < 0.4:
+        ops += [["lib_check", i] for i in ys]
+    elif z < 0.7:
+        ops.append(["cluster", ys])
+    else:
+        ops.append(["fit", ys, rng.choice([None, 1, 2])])
+    rest = rng.sample(idx, rng.randint(1, n))
+    ops.append(["cluster", rest] if rng.random() < 0.5 else ["fit", rest, rng.choice([None, 1, 2, 3, len(rest) + 1])])
+    if rng.random() < 0.4:
+        ops += [["templates", T1], ["lib_check", rng.choice(idx)]]
+    return ops
+
+
+def _h_twin(rng, case, n):
+    """(b) the same library used with the other attribute key (the switch is inserted by _Sim: the SAME list and dict objects)."""
+    N = _nbase(case)
+    ops = []
+    side = rng.randint(0, 1)
+    if rng.random() < 0.6:
+        k = rng.randint(1, min(3, n))
+        ops.append(["templates", _consistent(case, [i + side * N for i in rng.sample(range(n), k)], rng.sample(range(0, 13), k))])
+    for _ in range(rng.randint(3, 6)):
+        if rng.random() < 0.65:
+            side = 1 - side
+        sub = [i + side * N for i in rng.sample(range(n), rng.randint(1, min(n, 4)))]
+        z = rng.random()
+        if z < 0.4:
+            ops += [["lib_check", i] for i in sub[:2]]
+        elif z < 0.6:
+            ops.append(["cluster", sub])
+        elif z < 0.8:
+            ops.append(["fit", sub, rng.choice([None, 1, 2])])
+        elif z < 0.9:
+            ops.append(["gc_fit", sub])
+        else:
+            ops.append(["gc_iter", sub, True])
+    return ops
+
+
+def _h_modes(rng, case, n):
+    """(e) ONE GraphCluster / BatchCluster object used with attributes=None then with attributes, labelled then topology-only and
+    back, fit twice on the same list object.  Side 1 of the twin pool carries a constant attribute, so attribute_key=None is the
+    same call there."""
+    N = _nbase(case)
+    ops = []
+    lists = [rng.sample(range(n), rng.randint(2, n)) for _ in range(2)]
+    for _ in range(rng.randint(3, 6)):
+        base = rng.choice(lists)
+        side = rng.randint(0, 1) if case.get("twin") else 0
+        sub = [i + side * N for i in base]
+        fl = [{"nokey": 1}] if ((side == 1 or case["attr_mode"] == "none") and rng.random() < 0.7) else []
+        z = rng.random()
+        if z < 0.35:
+            ops.append(["gc_iter", sub, rng.random() < 0.6] + fl)
+        elif z < 0.65:
+            ops.append(["gc_fit", sub] + fl)
+        elif z < 0.8:
+            ops.append(["fit", sub, rng.choice([None, 1, 2, len(sub)])] + fl)
+        elif z < 0.9:
+            ops.append(["cluster", sub] + fl)
+        else:
+            ops.append(["reset"])
+    return ops
+
+
+def _edit_kinds(g, rng):
+    """An edited version of g: count-preserving (one charge / order / element) or count-changing (node / edge added / removed)."""
+    for _ in range(8):
+        h = _near_miss_deg(g, rng) if rng.random() < 0.6 else _near_miss(g, rng)
+        if h != g:
+            return h
+    return _near_miss(g, rng)
+
+
+def _h_edit(rng, case, n, versions):
+    """(c) graph objects EDITED IN PLACE between calls.  versions: group -> list of pool indices that are versions of one object."""
+    cur = {g: v[0] for g, v in versions.items()}
+    groups = list(versions)
+    ops = []
+    if rng.random() < 0.5:
+        k = rng.randint(1, min(3, len(groups)))
+        ops.append(["templates", _consistent(case, [cur[g] for g in rng.sample(groups, k)], rng.sample(range(0, 12), k))])
+    for _ in range(rng.randint(3, 6)):
+        for g in groups:
+            if len(versions[g]) > 1 and rng.random() < 0.4:
+                cur[g] = rng.choice([v for v in versions[g] if v != cur[g]])
+        sub = [cur[g] for g in rng.sample(groups, rng.randint(1, min(len(groups), 5)))]
+        z = rng.random()
+        if z < 0.3:
+            ops += [["lib_check", i] for i in sub[:2]]
+        elif z < 0.5:
+            ops.append(["cluster", sub])
+        elif z < 0.7:
+            ops.append(["fit", sub, rng.choice([None, 1, 2])])
+        elif z < 0.9:
+            ops.append(["gc_fit", sub])
+        else:
+            ops.append(["gc_iter", sub, True])
+    return ops
+
+
+def _h_gc(rng, case, n, versions):
+    """(c)+(e) ONE GraphCluster object on the same list: topology-only, labelled, after in-place edits, again."""
+    cur = {g: v[0] for g, v in versions.items()}
+    groups = list(versions)
+    order = rng.sample(groups, len(groups))
+    ops = []
+    for _ in range(rng.randint(3, 5)):
+        lst = [cur[g] for g in order]
+        z = rng.random()
+        ops.append(["gc_iter", lst, z < 0.5] if z < 0.7 else ["gc_fit", lst])
+        if rng.random() < 0.6:
+            ops.append(["gc_fit", lst])
+        for g in groups:
+            if len(versions[g]) > 1 and rng.random() < 0.35:
+                cur[g] = rng.choice([v for v in versions[g] if v != cur[g]])
+    ops.append(["fit", [cur[g] for g in order], rng.choice([None, 2])])
+    return ops
+
+
+def _h_mutate(rng, case, n):
+    """(d) results of earlier calls changed by the caller before the next call."""
+    idx = list(range(n))
+    ops = []
+    z = rng.random()
+    first = rng.sample(idx, rng.randint(2, n))
+    if z < 0.3:
+        ops.append(["gc_iter", first, True])
+        ops.append(["meta", [["clusters_clear"]]])
+        ops.append(["gc_iter", rng.sample(idx, rng.randint(2, n)), True])
+        ops.append(["gc_fit", first])
+        ops.append(["meta", [[rng.choice(["set_class", "del_class"]), i, 77] for i in first[:2]]])
+        ops.append(["gc_fit", first])
+    if z >= 0.2:
+        ops.append(["fit", first, rng.choice([None, None, 1, 2])])
+        acts = []
+        for _ in range(rng.randint(1, 3)):
+            w = rng.random()
+            if w < 0.3:
+                acts.append(["set_class", rng.choice(first), rng.choice([0, 1, 5, 50])])
+            elif w < 0.4:
+                acts.append(["del_class", rng.choice(first)])
+            elif w < 0.6:
+                acts.append(["t_append", rng.choice(idx), rng.choice([20, 21, 3])])
+            elif w < 0.75:
+                acts.append(["t_trunc", rng.randint(0, 2)])
+            elif w < 0.9:
+                acts.append(["t_class", 0, rng.choice([30, 0, 2])])
+            else:
+                acts.append(["t_copy"])
+        ops.append(["meta", acts])
+        rest = rng.sample(idx, rng.randint(1, n))
+        w = rng.random()
+        if w < 0.4:
+            ops += [["lib_check", i] for i in rest[:3]]
+        elif w < 0.7:
+            ops.append(["cluster", rest])
+        else:
+            ops.append(["fit", rest, rng.choice([None, 1, 2])])
+        if rng.random() < 0.5:
+            ops.append(["meta", [["t_perm", "rev"], ["set_class", rng.choice(idx), 9]]])
+            ops.append(["cluster", rng.sample(idx, rng.randint(1, n))])
+    return ops
+
+
+def _fix_perm(ops):
+    """t_perm 'rev' is resolved by _Sim (it knows the library's length)."""
+    return ops
+
+
+_DEG_GRAPHS = None
+
+
+def _deg_graphs():
+    """Degenerate base graphs: empty, single nodes (ids 0 / 7 / 123), isolated nodes, charges 0 / negative / >= 10,
+    orders 0 and 0.0 as scalars and inside ITS pairs, default-valued labels absent."""
+    E = {"nodes": [], "edges": []}
+    def n1(i, el, ch=None):
+        a = {"element": el}
+        if ch is not None:
+            a["charge"] = ch
+        return {"nodes": [[i, a]], "edges": []}
+    def path(ids, els, chs, orders):
+        return {"nodes": [[i, dict({"element": e}, **({} if c is None else {"charge": c}))] for i, e, c in zip(ids, els, chs)],
+                "edges": [[ids[k], ids[k + 1], ({} if o is None else {"order": o})] for k, o in enumerate(orders)]}
+    return [
+        E, n1(0, "C", 0), n1(7, "C"), n1(123, "O", 0), n1(0, "C", -1), n1(5, "C", 10), n1(5, "C", 11), n1(1, "*", 0), n1(2, "*"),
+        {"nodes": [[0, {"element": "C", "charge": 0}], [10, {"element": "C", "charge": 0}]], "edges": []},           # two isolated nodes
+        {"nodes": [[0, {"element": "C"}], [1, {"element": "O", "charge": 0}], [100, {"element": "H", "charge": 0}]],
+         "edges": [[0, 1, {"order": 1}]]},                                                                         # bond + isolated node
+        path([0, 1], ["C", "O"], [0, 0], [0]), path([0, 1], ["C", "O"], [0, 0], [0.0]), path([10, 11], ["C", "O"], [0, None], [1]),
+        path([10, 11], ["C", "O"], [0, None], [None]), path([3, 4], ["C", "O"], [-1, 10], [1]), path([3, 4], ["C", "O"], [10, -1], [2]),
+        path([0, 1, 2], ["C", "N", "O"], [0, 1, -1], [[0, 1], [1, 0]]), path([0, 1, 2], ["C", "N", "O"], [0, 1, -1], [[0.0, 1.0], [1, 0]]),
+        path([0, 1, 2], ["C", "N", "O"], [0, 1, -1], [[1, 0], [1, 0]]), path([100, 101, 102], ["C", "C", "C"], [0, 0, 0], [1, 0]),
+        path([100, 101, 102], ["C", "C", "C"], [0, 0, 0], [0, 1]), path([20, 21, 22], ["C", "C", "C"], [0, 12, 0], [1, 1.5]),
+        path([5, 6, 7], ["C", "C", "O"], [0, 0, 0], [0, 2]), path([5, 6, 7], ["C", "C", "O"], [0, 0, 0], [None, 2]),
+        path([5, 6, 7], ["C", "C", "O"], [0, 0, 0], [0.0, 2]), path([1, 2], ["N", "N"], [0, 0], [0]), path([1, 2], ["N", "N"], [0, 0], [1]),
+    ]
+
+
+def _ring(n, els, orders, first=1, charges=None):
+    ids = list(range(first, first + n))
+    return {"nodes": [[i, {"element": els[k % len(els)], "charge": (charges or [0])[k % len(charges or [0])]}] for k, i in enumerate(ids)],
+            "edges": [[ids[k], ids[(k + 1) % n], {"order": orders[k % len(orders)]}] for k in range(n)]}
+
+
+def _chain(n, els, orders, first=1):
+    g = _ring(n, els, orders, first)
+    g["edges"] = g["edges"][:-1]
+    return g
+
+
+def _big_graphs(rng):
+    """10-14 node rings / chains with few automorphisms (cheap for the model's enumerator) and their near-misses."""
+    out = []
+    for n in (10, 11, 12, 14):
+        els = ["C", "C", "N", "C", "O", "C", "C", "S", "C", "C", "Cl", "C", "B", "C"][:n]
+        out.append(_chain(n, els, [1, 2, 1, 1.5], first=rng.choice([0, 1, 95])))
+    out.append(_ring(10, ["C", "N", "C", "O", "C", "C", "S", "C", "C", "C"], [1, 2], first=1))
+    out.append(_ring(12, ["C", "C", "N", "C", "O", "C", "C", "C", "N", "C", "C", "O"], [1, 1, 2], first=90))
+    out.append(_ring(10, ["C"], [1], first=1, charges=[0, 0, 0, 1, 0, 0, 0, 0, -1, 0]))
+    return out
+
+
+CFGS = [
+    {"names": ["element"], "defaults": ["*"], "edge": "order"},
+    {"names": ["charge"], "defaults": [0], "edge": "order"},
+    {"names": ["charge", "element"], "defaults": [0, "*"], "edge": "order"},
+    {"names": ["element", "charge"], "defaults": ["C", 1], "edge": "order"},
+    {"names": ["element", "charge"], "defaults": ["*", 0], "edge": "standard_order"},
+    {"names": ["element", "hcount"], "defaults": ["*", 0], "edge": "order"},
+    {"names": [], "defaults": [], "edge": "order"},
+    {"names": ["element", "charge", "hcount"], "defaults": ["*", 0, 0], "edge": "order"},      # outside the model (3 labels)
+]
+
+
+def _cfg_pool(rng, base, size, cfg):
+    """Pool for a non-default configuration: near-misses also in the attributes the configuration IGNORES (must be merged) and
+    in the ones it adds."""
+    items = _pool(rng, base, size)
+    for it in items:
+        g = it["g"]
+        for _, a in g["nodes"]:
+            a.setdefault("hcount", 0)
+            if rng.random() < 0.15:
+                a["hcount"] = rng.choice([0, 1, 2])
+            if rng.random() < 0.1 and "charge" in a:
+                a["charge"] = rng.choice([0, 1])
+            if rng.random() < 0.1:
+                a.pop(rng.choice(["charge", "element", "hcount"]), None)
+        for _, _, a in g["edges"]:
+            o = a.get("order", 1)
+            a["standard_order"] = (o[0] - o[1]) if isinstance(o, list) else 0
+            if rng.random() < 0.1:
+                a["standard_order"] = rng.choice([0, 1, -1])
+    return items
+
+
 def gen_cases(tier, rng):
     corpus = _corpus()
     cases = []
+    quick = tier == "quick"
     synth = [{"nodes": [[n, {k: v for k, v in a.items() if k in ("element", "charge")}] for n, a in g["nodes"]], "edges": g["edges"]}
              for n_ in (2, 3) for g in G.iso_classes(n_, G.MOL_NODE_LABELS_NOH, G.MOL_EDGE_LABELS)]
+    deg = _deg_graphs()
+    small_corpus = [g for g in corpus if len(g["nodes"]) <= 6]
 
-    def mk(kind, items, mode, inv, opsf):
-        _set_attrs(items, mode, inv, rng)
-        c = dict(kind=kind, attr_mode=mode, invariant=inv, items=items, ops=[])
-        c["ops"] = opsf(c)
+    def style(c, p_shared=0.6, fancy=True):
+        """Calling conventions and object sharing of one case."""
+        if rng.random() < p_shared:
+            c["shared"] = True
+        if fancy:
+            z = rng.random()
+            if z < 0.25:
+                c["call"] = "pos"
+            elif z < 0.5:
+                c["call"] = "kw"
+            if rng.random() < 0.25:
+                c["rule_key"] = rng.choice(["RC", "gml", "graph"])
+            if rng.random() < 0.1:
+                c["strip"] = True
         return c
+
+    def finish(c, raw, extras=True):
+        raw = [o for o in raw if o is not None]
+        if extras and rng.random() < 0.15 and c["items"] and not c.get("obj"):
+            n = _nbase(c)
+            if rng.random() < 0.6:
+                how = rng.choice(["nm", "nm", "none"] + (["defaults"] if _eff(c) == DEF_CFG else []))
+                raw.append(["iso", rng.randrange(n), rng.randrange(n), how])
+            side = rng.randint(0, 1) * _nbase(c) if c.get("twin") else 0
+            sub = [side + rng.randrange(_nbase(c)) for _ in range(rng.randint(1, 12))]
+            raw.append(["batch_dicts", sub, rng.choice([1, 2, 3, 10, 12, len(sub), len(sub) + 1])])
+        try:
+            c["ops"] = _finalize(c, raw)
+        except ValueError:
+            return None
+        cases.append(c)
+        return c
+
+    def mk(kind, items, mode, inv, opsf, p_shared=0.0, fancy=False, cfg=None, variant=None):
+        _set_attrs(items, mode, inv, rng, cfg or DEF_CFG, variant)
+        c = dict(kind=kind, attr_mode=mode, invariant=inv, items=items, ops=[])
+        if cfg is not None:
+            c["cfg"] = cfg
+        style(c, p_shared, fancy)
+        return finish(c, opsf(c), extras=fancy)
 
     # all 6 orders of three near-miss triples (exhaustive tiny scope)
     for t in range(3):
@@ -735,11 +1804,12 @@ def gen_cases(tier, rng):
         trip = [{"g": _copy(g), "src": "dup"}, {"g": _relabelled(g, rng), "src": "relabel"}, {"g": _near_miss(g, rng), "src": "near"}]
         for perm in itertools.permutations(range(3)):
             items = [dict(trip[p]) for p in perm]
-            cases.append(mk("exh-orders", items, "none", True,
-                            lambda c: [["gc_fit", [0, 1, 2]], ["gc_iter", [0, 1, 2], True], _fit_op(c, [0, 1, 2], 1, False), ["reset"],
-                                       ["cluster", [0, 1, 2]], ["reset"], _fit_op(c, [0, 1, 2], None, False), ["lib_check", 2]]))
-    n_hist, n_b = (1060, 150) if tier == "quick" else (9000, 1200)
-    for t in range(n_hist):
+            mk("exh-orders", items, "none", True,
+               lambda c: [["gc_fit", [0, 1, 2]], ["gc_iter", [0, 1, 2], True], ["fit", [0, 1, 2], 1], ["reset"],
+                          ["cluster", [0, 1, 2]], ["reset"], ["fit", [0, 1, 2], None], ["lib_check", 2]], p_shared=0.5)
+    N = (lambda q, t: q if quick else t)
+    # ---- bulk histories (round 1/2 population, now 60 % of them on shared objects)
+    for t in range(N(450, 6000)):
         z = rng.random()
         if z < 0.7:
             base = rng.sample(corpus, rng.randint(2, 4))
@@ -747,18 +1817,22 @@ def gen_cases(tier, rng):
         else:
             base = rng.sample(synth, rng.randint(2, 4))
             kind = "synthetic"
-        size = rng.randint(3, 12 if tier == "quick" else 16)
+        size = rng.randint(3, 12 if quick else 16)
         mode = rng.choice(["none", "str", "str", "list"])
         inv = mode == "none" or rng.random() < 0.85
         items = _pool(rng, base, size)
-        cases.append(mk(kind + "/history", items, mode, inv, lambda c: _history(rng, c, size)))
+        if rng.random() < 0.12:
+            # records without any bond change: their reaction centre is the EMPTY graph (all of them isomorphic to each other)
+            for _ in range(rng.randint(2, 3)):
+                items[rng.randrange(size)] = {"g": {"nodes": [], "edges": []}, "src": "dup"}
+        mk(kind + "/history", items, mode, inv, lambda c: _history(rng, c, size), p_shared=0.6, fancy=True)
     # default-valued labels spelled differently (attribute absent / default written out), wildcard atoms, order-1 bonds
     wild = []
     for g in synth:
         h = _copy(g)
         rng.choice(h["nodes"])[1]["element"] = "*"
         wild.append(h)
-    for t in range(140 if tier == "quick" else 1200):
+    for t in range(N(120, 1200)):
         z = rng.random()
         if z < 0.35:
             base, kind = rng.sample(corpus, rng.randint(2, 3)), "corpus"
@@ -774,11 +1848,147 @@ def gen_cases(tier, rng):
                     it["src"] = "respell"
         z = rng.random()
         hist = _gap_templates if z < 0.3 else _empty_templates if z < 0.4 else _history
-        cases.append(mk(kind + "/respelled", items, mode, True, lambda c: hist(rng, c, size)))
-    for t in range(n_b):
+        mk(kind + "/respelled", items, mode, True, lambda c: hist(rng, c, size), p_shared=0.5, fancy=True)
+    for t in range(N(70, 1200)):
         base = rng.sample(corpus, rng.randint(2, 3))
         size = rng.randint(3, 8)
         mode = rng.choice(["none", "str", "list"])
         items = _pool(rng, base, size)
-        cases.append(mk("corpus/batch-vs-oneshot", items, mode, True, lambda c: _batch_vs_oneshot(rng, c, size)))
-    return cases
+        mk("corpus/batch-vs-oneshot", items, mode, True, lambda c: _batch_vs_oneshot(rng, c, size), p_shared=0.5)
+
+    # ---- round 3
+    def bases(p_deg=0.3):
+        z = rng.random()
+        if z < p_deg:
+            return rng.sample(deg, rng.randint(2, 4)) + ([deg[0]] * rng.randint(1, 2) if rng.random() < 0.6 else []), _near_miss_deg, "degenerate"
+        if z < p_deg + 0.4:
+            return rng.sample(small_corpus, rng.randint(2, 3)), _near_miss, "corpus"
+        return rng.sample(synth + wild, rng.randint(2, 4)), rng.choice([_near_miss, _near_miss_deg]), "synthetic"
+
+    def new_case(kind, size, histf, twin=None, shared=True, mode=None, pool_kw=None, cfg=None, p_deg=0.3):
+        base, near, src = bases(p_deg)
+        mode = mode or rng.choice(["none", "str", "str", "list"])
+        items = _pool(rng, base, size, near=near, hi=rng.choice([60, 60, 12, 400]), **(pool_kw or {}))
+        _set_attrs(items, mode, True, rng)
+        c = dict(kind="%s/%s" % (src, kind), attr_mode=mode, invariant=True, items=items, ops=[])
+        if twin:
+            c["items"], c["twin"] = _add_twin(items, mode, rng, twin)
+        style(c, 1.0 if shared else 0.0, True)
+        return finish(c, histf(c))
+
+    # (a) one BatchCluster object, libraries of equal size
+    for t in range(N(70, 500)):
+        size = rng.randint(3, 8)
+        new_case("shared-libraries", size, lambda c: _h_libs(rng, c, size))
+    # (b) same library, other attribute key
+    for t in range(N(70, 500)):
+        size = rng.randint(3, 7)
+        new_case("shared-other-key", size, lambda c: _h_twin(rng, c, size), twin="other", mode=rng.choice(["str", "str", "list"]))
+    # (e) one object: attributes None / given, labelled / topology-only, fit twice on the same list
+    for t in range(N(50, 400)):
+        size = rng.randint(3, 7)
+        md = rng.choice(["none", "str", "list"])
+        new_case("shared-modes", size, lambda c: _h_modes(rng, c, size), twin=None if md == "none" else "const", mode=md)
+    # (c) graph objects edited in place between calls
+    for t in range(N(110, 600)):
+        size = rng.randint(3, 6)
+        base, near, src = bases(0.25)
+        mode = rng.choice(["none", "str", "list"])
+        items = _pool(rng, base, size, near=near)
+        versions = {g: [g] for g in range(size)}
+        obj = list(range(size))
+        for g in range(size):
+            for _ in range(rng.choice([0, 1, 1, 2])):
+                items.append({"g": _edit_kinds(items[rng.choice(versions[g])]["g"], rng), "src": "near"})
+                versions[g].append(len(items) - 1)
+                obj.append(g)
+        _set_attrs(items, mode, True, rng)
+        c = dict(kind="%s/shared-edited-in-place" % src, attr_mode=mode, invariant=True, items=items, ops=[], obj=obj)
+        style(c, 1.0, True)
+        finish(c, _h_edit(rng, c, size, versions) if t % 3 else _h_gc(rng, c, size, versions))
+    # (d) results mutated by the caller
+    for t in range(N(60, 400)):
+        size = rng.randint(3, 7)
+        new_case("shared-caller-mutations", size, lambda c: _h_mutate(rng, c, size))
+    # C: degenerate values (fresh objects and shared objects)
+    for t in range(N(110, 600)):
+        size = rng.randint(3, 9)
+        hist = rng.choice([_history, _history, _gap_templates, _empty_templates, _batch_vs_oneshot, _h_libs])
+        new_case("degenerate", size, lambda c: hist(rng, c, size), shared=rng.random() < 0.5, p_deg=1.0,
+                 pool_kw=dict(p_near=0.3, p_rel=0.35))
+    # duplicate entries: the same index several times in one data list
+    for t in range(N(20, 100)):
+        size = rng.randint(2, 5)
+        def dup_hist(c):
+            l = [rng.randrange(size) for _ in range(rng.randint(3, 7))]
+            return [["gc_fit", l], ["fit", l, rng.choice([None, 1, 2])], ["cluster", l[::-1]], ["reset"], ["cluster", l], ["lib_check", l[0]]]
+        new_case("duplicate-entries", size, dup_hist, shared=rng.random() < 0.7)
+    # D: sizes -- graphs of 10-14 nodes, pools >= 20, class numbers >= 10, batch sizes >= 10
+    big = _big_graphs(rng)
+    for t in range(N(10, 60)):
+        size = rng.randint(4, 5)
+        items = _pool(rng, rng.sample(big, 2), size, p_near=0.35, p_rel=0.5, hi=rng.choice([60, 200]))
+        mk("sizes/big-graphs", items, rng.choice(["none", "str", "list"]), True,
+           lambda c: [["gc_fit", list(range(size))], ["templates", [[0, 10]]], ["fit", list(range(size)), 2]], p_shared=0.5, fancy=True)
+    for t in range(N(12, 60)):
+        size = rng.randint(20, 26)
+        items = _pool(rng, rng.sample(synth + deg, 6) + rng.sample(small_corpus, 2), size, near=_near_miss_deg)
+        def big_hist(c):
+            idx = list(range(size))
+            rng.shuffle(idx)
+            k = 4
+            tl = _consistent(c, idx[:k], rng.sample([9, 10, 11, 100, 12, 99], k))
+            return [["templates", tl], ["fit", idx[k:], rng.choice([10, 11, 12, 16])], ["lib_check", idx[0]], ["reset"],
+                    ["fit", idx, rng.choice([10, 13, None])], ["gc_fit", idx]]
+        mk("sizes/big-pools", items, rng.choice(["none", "str", "list"]), True, big_hist, p_shared=0.5, fancy=True)
+    # A: constructor options (non-default label names / defaults / edge attribute), explicit matchers
+    for t in range(N(48, 300)):
+        cfg = CFGS[t % len(CFGS)]
+        size = rng.randint(3, 7)
+        items = _cfg_pool(rng, rng.sample(small_corpus, 2) if rng.random() < 0.5 else rng.sample(synth + wild, 3), size, cfg)
+        def cfg_hist(c):
+            idx = list(range(size))
+            ops = [["gc_fit", rng.sample(idx, size)], ["gc_iter", rng.sample(idx, size), True]]
+            ops += [["lib_check", i] for i in rng.sample(idx, min(3, size))]
+            ops += [["cluster", rng.sample(idx, size)], ["reset"], ["cluster", rng.sample(idx, size)]]
+            if _norm_cfg(cfg) == _norm_cfg(DEF_CFG):
+                ops += [["fit", idx, None], ["reset"], ["fit", idx, 2]]
+            ops.append(["iso", rng.randrange(size), rng.randrange(size), "nm"])
+            return ops
+        mk("options/constructor", items, rng.choice(["none", "none", "str"]), True, cfg_hist, p_shared=0.7, fancy=True, cfg=cfg, variant="sig")
+    for t in range(N(24, 150)):
+        m = CFGS[t % 7]
+        size = rng.randint(3, 6)
+        items = _cfg_pool(rng, rng.sample(small_corpus, 2) if rng.random() < 0.5 else rng.sample(synth + wild, 3), size, m)
+        _set_attrs(items, "none", True, rng)
+        c = dict(kind="options/explicit-matchers", attr_mode="none", invariant=True, items=items, ops=[], match=m)
+        if rng.random() < 0.5:
+            c["cfg"] = rng.choice(CFGS[:6])         # the object's own configuration is a decoy: explicit matchers win
+        style(c, 0.7, True)
+        idx = list(range(size))
+        raw = [["gc_iter", rng.sample(idx, size), True]] + [["lib_check", i] for i in rng.sample(idx, size)]
+        raw += [["templates", [[idx[0], 4]]]] + [["lib_check", i] for i in rng.sample(idx, min(3, size))] + [["iso", 0, size - 1, "nm"]]
+        finish(c, raw, extras=False)
+    # contract of the constructors / batch_dicts / available_backends (oracle only)
+    g2 = [{"g": _copy(synth[0]), "src": "dup", "attr": None}, {"g": _copy(synth[1]), "src": "dup", "attr": None}]
+    contract = []
+    for which in ("gc", "bc"):
+        contract.append(["backends", which])
+        for names, defaults, edge, backend in (
+                (["element", "charge"], ["*", 0], "order", "nx"), (["element"], ["*", 0], "order", "nx"),
+                (["element", "charge"], ["*"], "order", "nx"), ([], [], "order", "nx"), (["element", "charge"], ["*", 0], "order", "mod"),
+                (["element", "charge"], ["*", 0], "order", "rule"), (["element", "charge"], ["*", 0], "order", "rdkit"),
+                (["element"], ["*", 0], "order", "foo")):
+            contract.append(["ctor", which, names, defaults, edge, backend])
+    for k, call in enumerate(("short", "pos", "kw", "short", "pos", "kw")):
+        cases.append(dict(kind="options/contract", attr_mode="none", invariant=True, items=[dict(x) for x in g2], call=call, shared=k >= 3,
+                          ops=contract[::1 if k < 3 else -1] + [["batch_dicts", [0, 1, 0], 0], ["batch_dicts", [0, 1], -1 - k], ["batch_dicts", [0, 1, 1], 2]]))
+        cases.append(dict(kind="options/contract", attr_mode="none", invariant=True, items=[dict(x) for x in g2], call=call, shared=k < 3,
+                          ops=[["fit", [0, 1][::1 if k < 3 else -1], 0, []], ["fit", [0, 1], -3 - k, []], ["fit", [0, 1, 0], 2, []], ["batch_dicts", [1, 0], 1]]))
+    # the expensive cases (big graphs / big pools) are spread over the list so that they do not share one model shard
+    heavy = [c for c in cases if c["kind"].startswith("sizes/")]
+    rest = [c for c in cases if not c["kind"].startswith("sizes/")]
+    step = max(1, len(rest) // (len(heavy) + 1))
+    for k, c in enumerate(heavy):
+        rest.insert(min(len(rest), (k + 1) * step + k), c)
+    return rest
